@@ -1230,3 +1230,34 @@ pub fn short_lived_maps_family() -> Vec<String> {
     }
     out
 }
+
+// families added after the seventeenth (mini) round (appended)
+
+/// a text literal that contains raw line breaks as the last token of its line, then another statement:
+/// (newline form, `;` form)
+pub fn multiline_literal_line_end_family() -> Vec<(String, String)> {
+    let mut out = vec![];
+    for lit in ["\"a\nb\"", "\"\n\"", "\"a\n\nb\n\"", "\"é\n中\"", "\"a\r\nb\"", "\"one\" + \"t\nwo\""] {
+        for (head, tail) in [("x <- ", ""), ("DISPLAY(", ")"), ("x <- [1, ", "]"), ("x <- (", ")"), ("IF (TRUE) x <- ", "")] {
+            let nl = format!("x <- 0\n{head}{lit}{tail}\nDISPLAY(x)\nDISPLAY(\"end\")\n");
+            let semi = format!("x <- 0\n{head}{lit}{tail};DISPLAY(x)\nDISPLAY(\"end\")\n");
+            out.push((nl, semi));
+        }
+        out.push((format!("PROCEDURE f() {{\nRETURN {lit}\n}}\nDISPLAY(f())\n"), format!("PROCEDURE f() {{\nRETURN {lit};}}\nDISPLAY(f())\n")));
+    }
+    out
+}
+
+/// text procedures with positions from 1 to beyond the text and counts at the limits of the machine integers
+pub fn text_huge_count_family() -> Vec<String> {
+    let mut out = vec![];
+    let huge = format!("1{}", "0".repeat(300));
+    for s in ["héllo", "abc", ""] {
+        for start in ["1", "2", "3", "5", "6", "7", "18446744073709551615", "INF"] {
+            for len in ["18446744073709551615", "18446744073709551616", "10000000000000000000", "INF", "9223372036854775807", "9223372036854775808", huge.as_str(), "4294967296"] {
+                out.push(format!("IMPORT MOD \"STRING\"\nINF <- 1{}\nDISPLAY(\"r\")\nDISPLAY(SUBSTRING(\"{s}\", {start}, {len}))\nDISPLAY(\"after\")\n", "0".repeat(309)));
+            }
+        }
+    }
+    out
+}
